@@ -268,7 +268,9 @@ class Transect:
 
             # Calculate the distance from the previous point
             # by using the AzimuthalEquidistant CRS centred on the previous point.
-            distance_from_previous = ORIGIN.distance(
+            # Measured from where the previous point itself lands in its own CRS:
+            # projecting from the data CRS does not put it at the origin exactly.
+            distance_from_previous = previous.crs.project_geometry(previous.point, src_crs=data_crs).distance(
                 previous.crs.project_geometry(point, src_crs=data_crs))
 
             points.append(TransectPoint(
@@ -393,7 +395,7 @@ class Transect:
             lp for lp in reversed(self.points)
             if lp.distance_normalised <= distance_normalised)
 
-        distance_from_point: float = ORIGIN.distance(
+        distance_from_point: float = line_point.crs.project_geometry(line_point.point, src_crs=data_crs).distance(
             line_point.crs.project_geometry(point, src_crs=data_crs))
         return line_point.distance_metres + distance_from_point
 
